@@ -28,6 +28,7 @@ func runCronRacy(t *testing.T, c cronCase) (out outcome, err error) {
 		// align to the epoch's second grid + 500ms
 		off := time.Now().Sub(epoch) % time.Second
 		time.Sleep(time.Second - off + 500*time.Millisecond)
+		cronLoc = time.UTC
 		cr := cron.New(cron.WithLocation(time.UTC), cron.WithLogger(quietLogger{}))
 		var mu sync.Mutex
 		var got []start
